@@ -640,6 +640,18 @@ pub fn replay(a: &Args, rec: &serde_json::Value) -> Report {
                 rep.violations.push(viol(tag, "c18", s[1].clone(), "outputs differ between the two orders".into(), json!({})));
             }
         }
+        "tokens" => {
+            let spec: Spec = serde_json::from_value(r["spec"].clone()).expect("spec");
+            let g = vdrive::generate(&spec.render("T", ""), true);
+            let mut fns = vec![];
+            let mut calls = 0;
+            if let Some(t) = g.tokens {
+                scan_sm(t, &mut fns, &mut calls);
+            }
+            if calls > 0 || fns.iter().any(|f| !["lex", "_make_error", "_get_action", "loop_test", "_logos_derive_compile_errors"].contains(&f.as_str())) {
+                rep.violations.push(viol(tag, "tokens", spec.short(), "state-machine output has extra functions or calls lex(..)".into(), json!({})));
+            }
+        }
         "c19" => {
             let c: C19Case = serde_json::from_value(r["case"].clone()).expect("case");
             if let Some(v) = c19_eval(&c) {
@@ -649,6 +661,68 @@ pub fn replay(a: &Args, rec: &serde_json::Value) -> Report {
             }
         }
         k => panic!("unknown replay kind {k}"),
+    }
+    rep
+}
+
+
+// ------------------------------------------------------------------------------------ C06 (structural)
+
+fn scan_sm(ts: proc_macro2::TokenStream, fns: &mut Vec<String>, lex_calls: &mut usize) {
+    use proc_macro2::{Delimiter, TokenTree};
+    let v: Vec<TokenTree> = ts.into_iter().collect();
+    for (i, t) in v.iter().enumerate() {
+        match t {
+            TokenTree::Ident(id) if id == "fn" => {
+                if let Some(TokenTree::Ident(name)) = v.get(i + 1) {
+                    fns.push(name.to_string());
+                }
+            }
+            TokenTree::Ident(id) if id == "lex" => {
+                let prev_is_fn = i > 0 && matches!(&v[i - 1], TokenTree::Ident(p) if p == "fn");
+                if !prev_is_fn {
+                    if let Some(TokenTree::Group(g)) = v.get(i + 1) {
+                        if g.delimiter() == Delimiter::Parenthesis {
+                            *lex_calls += 1;
+                        }
+                    }
+                }
+            }
+            TokenTree::Group(g) => scan_sm(g.stream(), fns, lex_calls),
+            _ => {}
+        }
+    }
+}
+
+/// In the state-machine output the only function items are `lex`, `_make_error`, `_get_action`
+/// and `loop_test`, and nothing calls `lex(...)`: every transition is an assignment + `continue`.
+pub fn c06struct(a: &Args) -> Report {
+    let mut rep = Report::new(&a.prop, "vgraph c06struct", &a.tier_name);
+    rep.bounds.insert("structural".into(), "every definition of the enumerated family + curated set: the state-machine generator's output has no per-state functions and no call of lex(..)".into());
+    let mut specs = vcore::enumerate::family(a.tier);
+    specs.extend(vcore::curated::curated().into_iter().map(|x| x.1));
+    let outs: Vec<Option<(Vec<String>, usize)>> = specs
+        .par_iter()
+        .map(|s| {
+            let g = vdrive::generate(&s.render("T", ""), true);
+            if !g.observed.accepted {
+                return None;
+            }
+            let mut fns = vec![];
+            let mut calls = 0;
+            scan_sm(g.tokens?, &mut fns, &mut calls);
+            Some((fns, calls))
+        })
+        .collect();
+    for (s, o) in specs.iter().zip(outs) {
+        rep.count("evaluations", 1);
+        let Some((fns, calls)) = o else { continue };
+        rep.count("distinct_nontrivial", 1);
+        rep.count("programs", 1);
+        let extra: Vec<&String> = fns.iter().filter(|f| !["lex", "_make_error", "_get_action", "loop_test", "_logos_derive_compile_errors"].contains(&f.as_str())).collect();
+        if (!extra.is_empty() || calls > 0) && rep.violations.len() < 20 {
+            rep.violations.push(viol("SM-STRUCT", "tokens", s.short(), format!("state-machine output defines functions {extra:?} and contains {calls} call(s) of lex(..): stack use can depend on the input"), json!({"spec": s})));
+        }
     }
     rep
 }
